@@ -176,7 +176,7 @@ def run(ck: Check):
     for origin, data, model, u in unknown_type_files(rng, big):
         files.append((origin, data, model))
         alien[origin] = u
-    for i in range(1000 if not ck.quick else (800 if ck.escalated else 160)):
+    for i in range(600 if not ck.quick else (800 if ck.escalated else 160)):
         model = M.gen_model(rng)          # format versions 035..041
         if i % 2:                          # explicit static values (all value types) and annotations of every kind
             model = X.enrich(rng, model, long_values=True)
